@@ -29,6 +29,16 @@ ASSUMPTIONS = ["tokio::sync::Semaphore permits are released when the OwnedSemaph
 def run(facts, R):
     b = facts.body(SOR)
     s = Sym(b)
+    # reader never awaits a permit
+    n_wait = 0
+    for bb in facts.bodies.values():
+        if not bb.path.startswith(WS):
+            continue
+        for i, t in bb.calls():
+            if "Semaphore" in t["callee"]["path"] and t["callee"]["name"] in ("acquire", "acquire_owned", "acquire_many", "acquire_many_owned"):
+                n_wait += 1
+                R.bad("reader-never-awaits-permit", bb.path, t["callee"]["name"], "an awaiting semaphore acquire in the WebSocket server would park the reader at the cap", t.get("span"))
+    R.ok("reader-never-awaits-permit", "<crate>", "no awaiting acquire on a semaphore", None, "0 sites")
     acq = [(i, t) for i, t in b.calls() if t["callee"]["name"] == "try_acquire_owned"]
     spw = [(i, t) for i, t in b.calls() if t["callee"]["name"] == "spawn_blocking"]
     R.check(len(acq) == 1 and len(spw) == 1, "permit-before-spawn", b.path, "shape", "try_acquire_owned=%d spawn_blocking=%d" % (len(acq), len(spw)), b.span)
@@ -130,16 +140,6 @@ def run(facts, R):
     for g, v in rows:
         if any("is Err" in x and "try_acquire_owned" in x for x in g) and any(x.endswith("notify is True") for x in g):
             R.check(v == "1", "saturation-branch", b.path, "saturated notify is dropped, reader continues", "saturated notify returns %s" % v, b.span, "returns true (keep reading)")
-    # reader never awaits a permit
-    n_wait = 0
-    for bb in facts.bodies.values():
-        if not bb.path.startswith(WS):
-            continue
-        for i, t in bb.calls():
-            if "Semaphore" in t["callee"]["path"] and t["callee"]["name"] in ("acquire", "acquire_owned", "acquire_many", "acquire_many_owned"):
-                n_wait += 1
-                R.bad("reader-never-awaits-permit", bb.path, t["callee"]["name"], "an awaiting semaphore acquire in the WebSocket server would park the reader at the cap", t.get("span"))
-    R.ok("reader-never-awaits-permit", "<crate>", "no awaiting acquire on a semaphore", None, "0 sites")
     # semaphore: Semaphore::new(limit) once per connection
     hc = facts.body(WS + "handle_connection_with_config::{closure#0}")
     sems = []
